@@ -38,6 +38,11 @@ BODIES = {
     'struct-first-of-two': ('(si)s', lambda t: [[t, 7], 'z'], lambda v: v),
     'empty-array': ('as', lambda t: [[]], lambda v: v[0]),
     'falsy': ('i', lambda t: [0], lambda v: v[0]),
+    # text outside ASCII ahead of further values: a localised message with a code, a name with properties
+    'text-then-int': ('si', lambda t: ['na\u00efve caf\u00e9 ' + t, 7], lambda v: v),
+    'text-then-more': ('sud', lambda t: ['Z\u00fcrich \u2013 Gen\u00e8ve \U0001f600' + t, 99, 2.5], lambda v: v),
+    'text-then-dict': ('sa{sv}', lambda t: ['\u00e9' + t, [('k\u00e9', Variant('i', 5))]],
+                       lambda v: [v[0], dict((k, x.value) for k, x in v[1])]),
     # replies of ordinary but not small size: an introspection document, a bulk result (well above 16 KiB, far below
     # the protocol's 128 MiB)
     'long-string': ('s', lambda t: [t + 'x' * 17000], lambda v: v[0]),
@@ -101,6 +106,8 @@ def error_body(c):
         return 'is', [c.idx, 'not-the-message']
     if k == 2:
         return 's', ['msg-' + c.token]
+    if c.idx % 3 == 0:
+        return 'sib', ['d\u00e9faut \u2013 ' + c.token, -3 - c.idx, True]
     return 'si', ['msg-' + c.token, c.idx]
 
 
